@@ -1,20 +1,28 @@
 CFG = dict(
     id="C03", props="Props/C03.v", harness="c03", shims=["c2--c03.go"], tags="verif,tiny",
     trusted_base=[
-        "com.Packet Marshal/Unmarshal and MarshalStream/UnmarshalStream are executed for real in every case but are not modelled here (C01 models them); the model only computes the stream length",
+        "com.Packet Marshal/Unmarshal and MarshalStream/UnmarshalStream are executed for real in every case but are not modelled here (C01 models them); the model only computes the stream length and treats the container's Chunk as the list of packed packets",
         "the overlay shim c2--c03.go builds Session/Listener/Server/conn values without a network and a recording mux (messager); a pending re-key is recorded on client senders so that pick() is deterministic",
-        "payload equality is length + CRC-32 of the bytes",
+        "payload equality is length + CRC-32 of the bytes (content id in the model)",
+        "the model's own packet record (Model/Batch.v: id, job, device, flag word as a record, tags, payload length, content id); device IDs are small integers, 0 = the empty ID",
     ],
     assumptions=[
-        "queued packets are `sendable`: not themselves containers (FlagMulti/FlagMultiDevice) or oneshot, job number assigned, non-zero tags, fragments carry a count; Size() <= limits.Frag is needed only for the budget theorem",
-        "every foreign device in the queue has a registered session on the receiving listener",
-        "the session is not in channel mode; no packet is queued concurrently with next()",
+        "queued packets are `queueable`: not themselves containers (FlagMulti/FlagMultiDevice) or oneshot, job number assigned (verifyPacket's random job for Job 0 is not modelled), non-zero tags, fragments carry a count (or are SvDrop/SvRegister notices)",
+        "Size() <= limits.Frag is NOT assumed (an oversized packet is sent alone; the budget theorem speaks about containers with more than one packet)",
+        "every foreign device in the queue has a registered session on the receiving listener (otherwise the peer asks it to re-register and drops the packet: C15/C05 territory)",
+        "the session is not in channel mode; no packet is queued concurrently with next() (the queue is a snapshot: `histories` = successive transmissions of that snapshot); the random re-key packet of pick() is outside the model",
+        "the session's device ID is not empty and limits.Packets < 65536 (wf_conf)",
     ],
-    level_text="Theorems over the Gallina model of Session.next/pick, nextPacket, writeUnpack, mergeTags and the receiving conn.process/receive/"
-               "processMultiple for ALL send queues and any number of transmissions: what the peer's per-packet processing observes is the queue "
-               "without keep-alives (and without the leading run of the abandoned group), same order, each once, fields intact; the carried-over "
-               "packet opens the next transmission; every container respects the size and count budget; tags are preserved as a set. The model is "
-               "tied to /repo by draining generated queues through the real next(), Marshal/Unmarshal and conn.process and evaluating the model on the same queues inside Coq.",
-    level_note="Proof is about the model; the tie to the code is differential (its strength is that of the generator, distribution in the evidence). "
-               "Built with -tags tiny (Frag = 262144, Packets = 32); the model takes both as parameters. No axioms.",
+    level_text="Machine-checked theorems (Coq, no axioms) over the Gallina model of Session.next/pick, nextPacket, writeUnpack, mergeTags and the receiving "
+               "conn.process/receive/processMultiple, for ALL send queues (any length, sizes, own/empty/foreign device IDs, keep-alives anywhere, tags, "
+               "abandoned group) and ALL numbers of transmissions (induction on the number of pending packets; progress lemma = termination): what the "
+               "peer's per-packet processing observes over the whole drain is the queue without keep-alives and without the leading run of the abandoned "
+               "group, same order, each once, id/job/device/flags/payload intact; the carried-over packet is peek and opens the next transmission; every "
+               "container with more than one packet respects the Size and count budget; tags are preserved as a set; the only receiver error is the empty "
+               "container produced by a keep-alive-only queue (recorded as an observation). The theorems are about the very definitions (`drain`, "
+               "`session_next`, `recv_tx`) that `check` evaluates on every generated queue.",
+    level_note="Proof is about the model; the tie to the code is differential: generated queues are drained through the real next(), Marshal/Unmarshal and "
+               "conn.process, and the model is evaluated on the same queues inside Coq (its strength is that of the generator, distribution in the evidence). "
+               "Built with -tags tiny (Frag = 262144, Packets = 32); the model and all theorems take both as parameters; the standard build "
+               "(32 MiB / 256) is not exercised by the harness.",
 )
